@@ -4,7 +4,7 @@ SimEnv and record the store-level history plus every value handed out by stub ca
 import random
 
 from . import load_repo
-from .kernel import SimEnv, Livelock, HarnessCap
+from .kernel import SimEnv, Livelock, HarnessCap, ClockWentBack
 
 load_repo()
 
@@ -395,6 +395,8 @@ class FactoryRun:
                 env._now = T
         except Livelock as e:
             self.crash = ("livelock", str(e), None)
+        except ClockWentBack as e:
+            self.crash = ("clock-went-back", str(e), None)
         except HarnessCap:
             raise
         except Exception as e:
